@@ -5,6 +5,6 @@ VARIABLE hist
 XInit == Init /\ hist = <<>>
 XNext == Next /\ hist' = Append(hist, last')
 XSpec == XInit /\ [][XNext]_<<vars, hist>>
-ExportInv == (pc = "done") => PrintT(<<"CASE", ToJson([L |-> L, chains |-> Chains, grid |-> SetToSeq(Grid), bundle |-> Bundle, maxiter |-> MaxIter, evs |-> hist,
+ExportInv == (pc = "done") => PrintT(<<"CASE", ToJson([L |-> L, chains |-> Chains, closed |-> SetToSeq(Closed), grid |-> SetToSeq(Grid), bundle |-> Bundle, maxiter |-> MaxIter, evs |-> hist,
                                                         pos |-> pos])>>)
 =============================================================================
